@@ -65,6 +65,8 @@ pub fn cursor_files(tier: Tier) -> Vec<(String, FileSpec)> {
             add(format!("deep3-n{n}-L{l}"), FileCfg::layout(b, Some(2), l), EntrySpec::Uniform { n: *n, klen: 400, vlen: 1, wide: false });
         }
     }
+    // maximal index depth on a tiny file (the depth arithmetic of the reader), in both tiers
+    add("three-L255".into(), FileCfg::layout(b, Some(1), 255), EntrySpec::Uniform { n: 3, klen: 2, vlen: 2, wide: false });
     if tier == Tier::Thorough {
         // codecs on one deep file, default interval
         for (c, lv) in vlib::fam::CODECS_ONE {
@@ -145,13 +147,24 @@ pub fn run(tier: Tier) -> i32 {
         }
     });
     acc.merge(a3);
+    // fourth engine: a^k b for every pair of operations (k <= 8), on one cursor object
+    let a4 = par_for(enum_files.len(), 1, &deadline, |i, acc| {
+        let (name, spec) = &enum_files[i];
+        if let Ok((entries, bytes)) = build_file(spec) {
+            let (h, o) = crate::cursor_bfs::repeat_then_switch(name, spec, &entries, &bytes, 8, "C03", acc);
+            acc.count("repeat_then_switch_histories", h);
+            acc.transitions += o;
+            acc.evaluations += o;
+        }
+    });
+    acc.merge(a4);
     rep.acc = acc;
     let closed_all = rep.acc.counters.get("files_not_closed").copied().unwrap_or(0) == 0;
     rep.set("exhaustive", json!(closed_all));
     rep.set("files", json!(names));
     rep.set(
         "rule",
-        json!("E1 closure: per file, BFS over all reachable (model position, cursor fingerprint) states under the alphabet {first,last,next,prev,reset} + {GE,LE,EQ} x probes (every stored key, key minus last byte, key-1, key++00, key++FF, '', 00, FFFFFFFF); every transition runs on a clone of the real cursor and is compared with the sorted-vector model; a second engine enumerates ALL histories of length <= d (6 quick, 7 thorough) over a 7-11 symbol alphabet (5 moves + GE/LE at up to three positions) on six files with NO state deduplication (sound even for a change that adds cursor state the fingerprint cannot see); a third engine runs every history of length d1 (5 quick, 6 thorough) over that alphabet plus EQ and two seeks that find nothing on ONE cursor object per history, never cloned (the first two engines run every step on a clone of the previous state's cursor); distinct_nontrivial = files with >= 2 blocks at some non-root index level"),
+        json!("E1 closure: per file, BFS over all reachable (model position, cursor fingerprint) states under the alphabet {first,last,next,prev,reset} + {GE,LE,EQ} x probes (every stored key, key minus last byte, key-1, key++00, key++FF, '', 00, FFFFFFFF); every transition runs on a clone of the real cursor and is compared with the sorted-vector model; a second engine enumerates ALL histories of length <= d (6 quick, 7 thorough) over a 7-11 symbol alphabet (5 moves + GE/LE at up to three positions) on six files with NO state deduplication (sound even for a change that adds cursor state the fingerprint cannot see); a third engine runs every history of length d1 (5 quick, 6 thorough) over that alphabet plus EQ and two seeks that find nothing on ONE cursor object per history, never cloned (the first two engines run every step on a clone of the previous state's cursor); a fourth runs a^k b (k <= 8) for every pair of operations, for state that only builds up under repetition; distinct_nontrivial = files with >= 2 blocks at some non-root index level"),
     );
     rep.set("bound", json!("closure (no depth bound) on every listed file"));
     rep.assume("the cursor's future behaviour is a function of the fingerprinted fields (per level recorded offset, loaded block bytes, in-block position; data block bytes and position) — every block load is preceded by an absolute seek, so the source position is irrelevant");
